@@ -449,9 +449,12 @@ class ValueGen:
                 lo = 0 if ity["t"].startswith("U") else -100
                 sdt = np.dtype(SC_DTYPE[src])
                 hexd = np.array([rng.randint(lo, 100) for _ in range(n)], dtype=sdt).tobytes().hex()
-            layout = rng.choice(["C", "C", "F", "strided"]) if nd > 1 or rng.random() < 0.3 else "C"
+            layout = rng.choice(["C", "C", "F", "strided", "be"]) if nd > 1 or rng.random() < 0.3 else "C"
             return {"nd": {"hex": hexd, "src": src, "shape": shape, "layout": layout}}
         # nested lists: a list cannot carry the trailing extents of an empty leading dimension
+        if n == 0 and nd > 1 and ity["k"] == "sc" and any(d == 0 for d in ty["shape"]):
+            # a static zero-length dimension: the shape cannot be altered to suit the input form
+            return {"nd": {"hex": "", "src": ity["t"], "shape": shape, "layout": "C"}}
         if n == 0 and nd > 1:
             if dyn_shape and static_item and dims_ok:
                 return {"dims": [shape[i] for i, d in enumerate(ty["shape"]) if d is None], "shape": shape}
@@ -494,6 +497,11 @@ class Materialiser:
             if "cap" in spec:
                 return int(spec["cap"]), StrNode("", int(spec["cap"]))
             # documented minimal capacity: data + NUL, rounded to the slot after the 8-byte header
+            if spec.get("as_obj"):
+                from . import seams
+
+                sobj = seams.xo.String(spec["s"], _context=seams.xo.ContextCpu())
+                return sobj, StrNode(spec["s"], (len(spec["s"].encode()) + 1 + 7) // 8 * 8)
             return spec["s"], StrNode(spec["s"], (len(spec["s"].encode()) + 1 + 7) // 8 * 8)
         if k == "struct":
             if "obj" in spec:
@@ -584,7 +592,9 @@ class Materialiser:
             sdt = np.dtype(SC_DTYPE[nd["src"]])
             tdt = np.dtype(SC_DTYPE[schema[item]["t"]])
             a = np.frombuffer(bytes.fromhex(nd["hex"]), dtype=sdt).reshape(shape)
-            if nd["layout"] == "F":
+            if nd["layout"] == "be":
+                arr = a.astype(sdt.newbyteorder(">"))  # same values, non-native byte order
+            elif nd["layout"] == "F":
                 arr = np.asfortranarray(a)
             elif nd["layout"] == "strided":
                 big = np.zeros(tuple(2 * d for d in shape), dtype=sdt)
